@@ -297,6 +297,20 @@ def oracle_surface(ck, rng):
             ow = sim.copy().add_molecules(mol.subset([0]), (2 * tmpl).astype(np.float64), name="m", overwrite=True)
             expect(np.allclose(ow.simulate(N), 2 * alone[0], atol=1e-4) and np.allclose(sim.simulate(N), grey, atol=1e-5), "add-molecules",
                    "overwrite=True did not replace the component (or changed the simulator it was copied from)", info)
+            # the same on one instance that has already been used: simulate, replace the component (another template, another box), simulate again
+            used = TomogramSimulator(order=order, scale=scale).add_molecules(mol, tmpl, name="m")
+            first = used.simulate(N)
+            t2 = np.zeros((3, 5, 3), np.float32); t2[1, 1:4, 1] = [1.0, 2.0, 3.0]
+            used.add_molecules(mol.subset([1]), t2, name="m", overwrite=True)
+            second = used.simulate(N)
+            fresh = TomogramSimulator(order=order, scale=scale).add_molecules(mol.subset([1]), t2, name="m").simulate(N)
+            expect(np.allclose(first, grey, atol=1e-5) and np.allclose(second, fresh, atol=1e-5), "add-molecules",
+                   "a simulator that has been used keeps simulating the replaced component after add_molecules(overwrite=True)", info)
+            used.add_molecules(mol.subset([0]), tmpl, name="extra")
+            both = used.simulate(N)
+            expect(np.allclose(both, fresh + alone[0], atol=1e-4), "add-molecules", "a component added after a simulation is not part of the next one", info)
+            p2 = used.simulate_2d(N[1:])
+            expect(np.allclose(p2, both.sum(axis=0), atol=1e-3), "add-molecules", "simulate_2d after these changes is not the z-projection of simulate", info)
             # projections (the projection code always interpolates at order 3, so it is compared with an order-3 simulator)
             # the projection code cuts every rotated template to its own (y, x) box, so the density is kept inside the inscribed ball
             blob = np.zeros((11, 11, 11), np.float32)
